@@ -403,8 +403,11 @@ func (w *world) apply(op Op) []applied {
 		coqOp = fmt.Sprintf("AddBatch %d", op.N)
 	case "delbatch":
 		try(nil, func(ctx sdk.Context) error {
+			// what OutgoingTxBatchExecuted does with a finished batch (batch ids are never reused by the real
+			// code; the generator may reuse one, so the confirms have to go with the batch)
 			if b := x.Keeper.GetOutgoingTxBatch(ctx, m.token, uint64(op.N)); b != nil {
 				x.Keeper.DeleteBatch(ctx, b)
+				x.Keeper.DeleteBatchConfirm(ctx, b.BatchNonce, b.TokenContract)
 			}
 			return nil
 		})
